@@ -31,8 +31,8 @@ fn answer(code: u8) -> IoAnswer {
 
 fn tables() -> Tables {
     Tables {
-        keys: vec![b"a".to_vec(), b"b".to_vec()],
-        values: vec![b"x".to_vec(), b"y".to_vec(), big_value(5000, 0x61), 7i64.to_le_bytes().to_vec()],
+        keys: vec![b"a".to_vec(), b"b".to_vec(), b"c".to_vec(), b"d".to_vec()],
+        values: vec![b"x".to_vec(), b"y".to_vec(), big_value(5000, 0x61), 7i64.to_le_bytes().to_vec(), big_value(9000, 0x62)],
         bounds: vec![b"".to_vec(), vec![0xff; 4]],
         patches: vec![],
     }
@@ -52,6 +52,20 @@ pub fn workloads(thorough: bool) -> Vec<(String, Cfg, Vec<Op>)> {
         ("two-batches".to_string(), disk, vec![ins(0, 0), ins(1, 2), Op::Flush, Op::Delete { k: 1, ts: 0 }, ins(0, 1), Op::Flush]),
         ("overwrite-flush-flush".to_string(), disk, vec![ins(0, 2), Op::Flush, ins(0, 0), Op::Flush, Op::Flush]),
         ("ttl-rewrite".to_string(), ttl, vec![Op::Insert { k: 0, v: 0, ts: 0, ttl: 1000, bytes: false }, Op::Flush, Op::UpdateTtl { k: 0, secs: 5000 }, Op::Flush]),
+        // one batch whose first record is larger than the second (adjacent extents of unequal size)
+        ("big-then-small".to_string(), disk, vec![ins(0, 2), ins(1, 0), Op::Flush, ins(1, 1), Op::Flush]),
+        ("small-then-big".to_string(), disk, vec![ins(1, 0), ins(0, 2), Op::Flush, ins(1, 1), Op::Flush]),
+        // a failed batch of unequal extents refilling a hole right in front of another key's durable record
+        (
+            "hole-refill".to_string(),
+            disk,
+            vec![ins(0, 4), Op::Flush, ins(1, 0), Op::Flush, Op::Delete { k: 0, ts: 0 }, Op::Flush, ins(0, 2), ins(2, 0), Op::Flush, Op::Flush, ins(3, 1), Op::Flush],
+        ),
+        (
+            "hole-refill-rev".to_string(),
+            disk,
+            vec![ins(0, 4), Op::Flush, ins(1, 0), Op::Flush, Op::Delete { k: 0, ts: 0 }, Op::Flush, ins(2, 0), ins(0, 2), Op::Flush, Op::Flush, ins(3, 1), Op::Flush],
+        ),
         ("batch-of-three".to_string(), disk, vec![ins(0, 0), ins(1, 1), Op::Flush, ins(0, 1), ins(1, 0), Op::Incr { k: 1, delta: 0, ts: FUT, ttl: 0 }, Op::Flush]),
     ];
     if thorough {
@@ -70,11 +84,12 @@ pub struct FaultRun {
     pub images: u64,
     pub recoveries: u64,
     pub outs: Vec<Out>,
+    pub indeterminate: bool,
 }
 
 /// Execute `ops` under `plan`, then heal the device, and apply every oracle.
 pub fn run(cfg: Cfg, t: &Tables, ops: &[Op], plan: &Plan, seen: &Mutex<HashSet<u128>>) -> FaultRun {
-    let mut fr = FaultRun { calls: Vec::new(), problems: Vec::new(), machinery: None, images: 0, recoveries: 0, outs: Vec::new() };
+    let mut fr = FaultRun { calls: Vec::new(), problems: Vec::new(), machinery: None, images: 0, recoveries: 0, outs: Vec::new(), indeterminate: false };
     let (mut sut, base) = match Sut::create_logged(cfg, "fault", true) {
         Ok(x) => x,
         Err(e) => {
@@ -85,7 +100,12 @@ pub fn run(cfg: Cfg, t: &Tables, ops: &[Op], plan: &Plan, seen: &Mutex<HashSet<u
     {
         let mut f = sut.sess.fault.lock();
         f.enabled = true;
-        f.plan = plan.answers.iter().map(|(i, a)| (*i, answer(*a))).collect();
+        // code 4: one logical write that keeps failing - the call and its two retries
+        f.plan = plan
+            .answers
+            .iter()
+            .flat_map(|(i, a)| if *a == 4 { vec![(*i, IoAnswer::FailBefore), (*i + 1, IoAnswer::FailBefore), (*i + 2, IoAnswer::FailBefore)] } else { vec![(*i, answer(*a))] })
+            .collect();
         f.fail_from = plan.fail_from;
         f.calls.clear();
     }
@@ -169,6 +189,7 @@ pub fn run(cfg: Cfg, t: &Tables, ops: &[Op], plan: &Plan, seen: &Mutex<HashSet<u
             fr.problems.push(format!("C09: after the injected faults a crash image violates durability: {} [{}]", f.msg, f.desc));
         }
     }
+    fr.indeterminate = indeterminate.get();
     // ---- after an indeterminate failure: reopen a copy of the device, flush must work
     if indeterminate.get() {
         let mut img = base.clone();
@@ -337,8 +358,10 @@ pub fn check(tier: &str, budget_s: f64, report: &mut Report) {
     let mut outcome_set: HashSet<u64> = HashSet::new();
     let mut per = serde_json::Map::new();
     let mut exhaustive = true;
-    let max_dev: usize = if thorough { 3 } else { 2 };
     for (wi, (name, cfg, ops)) in workloads(thorough).into_iter().enumerate() {
+        // the long hole-refill workloads get one deviation less (their call sequences are 3x longer)
+        let long = name.starts_with("hole-refill");
+        let max_dev: usize = if thorough { 3 } else { 2 } - usize::from(long);
         // 0 deviations: learn the call sequence
         let base_run = run(cfg, &t, &ops, &Plan { answers: vec![], fail_from: None }, &seen);
         if let Some(m) = base_run.machinery {
@@ -351,7 +374,7 @@ pub fn check(tier: &str, budget_s: f64, report: &mut Report) {
         let n = base_run.calls.len();
         let mut level: Vec<Plan> = Vec::new();
         for i in 0..n {
-            let codes: &[u8] = if base_run.calls[i] == CallKind::Write { &[1, 2, 3] } else { &[1, 2] };
+            let codes: &[u8] = if base_run.calls[i] == CallKind::Write { &[1, 2, 3, 4] } else { &[1, 2] };
             for &c in codes {
                 level.push(Plan { answers: vec![(i, c)], fail_from: None });
             }
@@ -386,8 +409,8 @@ pub fn check(tier: &str, budget_s: f64, report: &mut Report) {
                 }
                 // further deviations are placed relative to the faulted run's own call sequence
                 if depth < max_dev && r.plan.fail_from.is_none() && r.plan.answers.len() == depth {
-                    let (i0, _) = *r.plan.answers.last().unwrap();
-                    for j in i0 + 1..r.calls.len() {
+                    let (i0, c0) = *r.plan.answers.last().unwrap();
+                    for j in i0 + if c0 == 4 { 3 } else { 1 }..r.calls.len() {
                         let codes: &[u8] = if r.calls[j] == CallKind::Write { &[1, 2, 3] } else { &[1, 2] };
                         for &c in codes {
                             let mut a = r.plan.answers.clone();
@@ -413,7 +436,11 @@ pub fn check(tier: &str, budget_s: f64, report: &mut Report) {
                 report.machinery(format!("[{name}] {m}"));
                 continue;
             }
-            let kinds: Vec<String> = plan.answers.iter().map(|(i, c)| format!("call {i} -> {:?}", answer(*c))).collect();
+            let kinds: Vec<String> = plan
+                .answers
+                .iter()
+                .map(|(i, c)| if *c == 4 { format!("calls {i}..={} -> FailBefore (a write and its retries)", i + 2) } else { format!("call {i} -> {:?}", answer(*c)) })
+                .collect();
             report.violation(
                 format!("fault|{name}|{plan:?}|{}", msg.chars().take(120).collect::<String>()),
                 format!("workload {name}: {:?}\nfault plan: {:?} fail_from={:?}\n{msg}", ops.iter().map(|o| t.describe(o)).collect::<Vec<_>>(), kinds, plan.fail_from),
@@ -429,7 +456,8 @@ pub fn check(tier: &str, budget_s: f64, report: &mut Report) {
     report.add("crash_images_enumerated", images);
     report.add("recoveries_run", recoveries);
     report.set("workloads", serde_json::Value::Object(per));
-    report.set("max_deviations", max_dev);
+    report.set("max_deviations", if thorough { 3 } else { 2 });
+    report.set("max_deviations_long_workloads", if thorough { 2 } else { 1 });
     report.set("exhaustive", exhaustive);
     report.assumptions.push("faults are injected on the synchronous write path (io_uring disabled); a failed fsync makes nothing newly durable (before) or everything (after)".into());
 }
